@@ -345,7 +345,60 @@ C08 = dict(
                  "block tree of the scopes is a chain; forks are covered sequentially by C06"],
 )
 
-FAMILIES = {"C01": MPT, "C02": MPT, "C14": MPT, "C06": SC, "C07": SC, "C08": C08}
+# ----------------------------------------------------------------------------- family: rounds (C03, C04, C05)
+
+def _rounds_ops(events):
+    ops = []
+    for e in events:
+        op = e["op"]
+        if op == "round":
+            ops.append(dict(op="round", ver=e["ver"]))
+        elif op in ("open", "merge", "discard"):
+            ops.append(dict(op=op, t=e["t"]))
+        elif op in ("ins", "del"):
+            ops.append(dict(op=op, t=e["t"], p=e["p"], v=e.get("v", "")))
+        elif op == "savebegin":
+            ops.append(dict(op="save"))
+        elif op == "prune":
+            ops.append(dict(op="prune", ver=e["ver"]))
+    rs = [e for e in events if e["op"] == "reset"]
+    return dict(persist=rs[0].get("persist", True) if rs else True, quiet=rs[0].get("quiet", True) if rs else True,
+                sharedcache=rs[0].get("sharedcache", False) if rs else False, ops=ops)
+
+
+ROUNDS = dict(
+    name="rounds", component="rounds", trace_module="MPTRounds", trace_cfg="MPTRounds.cfg",
+    design={"quick": [("MPTTxn_MC", "MPTTxn_MC.cfg"), ("MPTPersist", "MPTPersist_MC.cfg")],
+            "thorough": [("MPTTxn_MC", "MPTTxn_MC.cfg"), ("MPTPersist", "MPTPersist_MC4.cfg")]},
+    mutants={"quick": [("MPTPersist", "MPTPersist_mut_origin.cfg", "DeadNotLive"), ("MPTPersist", "MPTPersist_mut_slack.cfg", "Safe")],
+             "thorough": [("MPTPersist", "MPTPersist_mut_origin.cfg", "DeadNotLive"), ("MPTPersist", "MPTPersist_mut_slack.cfg", "Safe")]},
+    gen={"quick": [dict(module="MPTTxn_MC", cfg="MPTTxn_gen_ex.cfg", workers=1),
+                   dict(module="MPTTxn_MC", cfg="MPTTxn_gen_sim.cfg", workers=1,
+                        extra=["-simulate", "num=1500", "-depth", "12", "-seed", "{seed}"])],
+         "thorough": [dict(module="MPTTxn_MC", cfg="MPTTxn_gen_ex5.cfg", workers=1, timeout=3000),
+                      dict(module="MPTTxn_MC", cfg="MPTTxn_gen_sim.cfg", workers=1, timeout=3000,
+                           extra=["-simulate", "num=40000", "-depth", "12", "-seed", "{seed}"])]},
+    exec_args=lambda tier, seed: (["-n", 300, "-nblock", 300] if tier == "quick" else ["-n", 8000, "-nblock", 8000]),
+    flags={"C03": {"isolation", "content", "mergeres", "mergeview", "corrupt", "rootclash", "liveset", "res", "panic", "unknown-op"},
+           "C04": {"incomplete", "damaged", "reopen", "reopenpruned", "saveres", "saveroot", "savedeletes", "unknownstart"},
+           "C05": {"deadlive", "prunedlive", "prunedamage", "prunedrecord", "reopenpruned", "pruneres"}},
+    distinct=lambda s: s.get("distinct_signatures", 0),
+    rule="histories = (a) every behaviour of MPTTxn.tla (block trie + child tries, merge/discard/reject) of the generator depth "
+         "emitted by TLC, plus TLC -simulate samples, each executed as one saved round; (b) seeded random multi-round histories "
+         "(3-10 rounds, 1-5 transactions each, merged/discarded/stale, save, dead-node record, prune, crash inside the write stream "
+         "of save/prune with re-execution); one trace event per storage write element, reopen of every retained root on the surviving "
+         "store after each save/prune/crash; distinct_nontrivial = distinct operation-kind signatures of whole histories",
+    summary_keys=["saves", "crashes", "prunes", "merges", "rejected_merges", "reopens", "distinct_nodes", "go_histories"],
+    ops_of=_rounds_ops,
+    replay_args=["-n", 0, "-nblock", 0],
+    assumptions=["persistent store = unmodified PNodeDB over the in-memory grocksdb stub: ordered KV, atomic WriteBatch, a crash "
+                 "preserves a prefix of the issued write elements",
+                 "children left open while the parent's root changes are stale: their reads may fail with an error (never wrong "
+                 "data) and their merge must be rejected leaving the parent untouched",
+                 "node graph rows are parsed by the harness bridge from the bytes produced by the real code"],
+)
+
+FAMILIES = {"C01": MPT, "C02": MPT, "C14": MPT, "C06": SC, "C07": SC, "C08": C08, "C03": ROUNDS, "C04": ROUNDS, "C05": ROUNDS}
 PROPS = dict(FAMILIES)
 
 
